@@ -76,7 +76,21 @@ func fixedSessions() []sessIn {
 		actIn{K: "http", Method: "POST", Path: "/topic/tombstone", QT: sp("*"), QN: sp("bystander:4151")},
 		actIn{K: "http", Method: "GET", Path: "/lookup", QT: sp(byTopic)},
 	)
-	return []sessIn{{Profile: "hostile", Name: "fixed-F2-identify-negative-size", Acts: acts}}
+	// another connection registers and unregisters the #ephemeral channel the bystander holds
+	visitor := func(tail string) []byte {
+		b := append([]byte("  V1"), identifyBytes([]byte(`{"broadcast_address":"h9","tcp_port":4150,"http_port":4151,"version":"1.3.0"}`))...)
+		return append(b, []byte("REGISTER "+byTopic+" "+byEph+"\n"+tail)...)
+	}
+	shared := append([]actIn{}, setup...)
+	shared = append(shared,
+		actIn{K: "op", Op: &opIn{K: "register", T: byTopic, C: byEph}},
+		conn("shared-ephemeral-register-unregister", "OK", visitor("UNREGISTER "+byTopic+" "+byEph+"\n")),
+		actIn{K: "http", Method: "GET", Path: "/channels", QT: sp(byTopic)},
+		conn("shared-ephemeral-register-eof", "OK", visitor("")),
+		conn("shared-ephemeral-register-unregister", "OK", visitor("UNREGISTER "+byTopic+" "+byEph+"\nUNREGISTER "+byTopic+" "+byEph+"\n")),
+		actIn{K: "op", Op: &opIn{K: "ping"}})
+	return []sessIn{{Profile: "hostile", Name: "fixed-F2-identify-negative-size", Acts: acts},
+		{Profile: "hostile", Name: "fixed-shared-ephemeral-channel", Acts: shared}}
 }
 
 // ------------------------------------------------------------------ fingerprint
